@@ -95,6 +95,12 @@ class Region(abc.ABC):
                 # are applied to one side only)
                 self_val = getattr(self, param)
                 other_val = getattr(other, param)
+                if param in meta_params:
+                    # the entries may hold arrays, which a plain dict
+                    # comparison cannot handle
+                    if not self._mapping_equal(self_val, other_val):
+                        return False
+                    continue
                 if (np.any(self_val != other_val)
                         or np.any(other_val != self_val)):
                     return False
@@ -105,6 +111,25 @@ class Region(abc.ABC):
             # different shapes. Here return False instead of raising.
             return False
 
+        return True
+
+    @staticmethod
+    def _mapping_equal(map1, map2):
+        """
+        Whether two metadata mappings have the same keys and equal
+        values; array values are equal if they have the same shape and
+        elements.
+        """
+        if map1.keys() != map2.keys():
+            return False
+        for key, val1 in map1.items():
+            val2 = map2[key]
+            if isinstance(val1, np.ndarray) or isinstance(val2, np.ndarray):
+                if (np.shape(val1) != np.shape(val2)
+                        or not np.array_equal(val1, val2)):
+                    return False
+            elif val1 != val2:
+                return False
         return True
 
     def __ne__(self, other):
